@@ -1,5 +1,5 @@
 """Program families per property (the bounded dimension; bounds stated in DESIGN §4)."""
-import itertools, random
+import itertools, random, copy
 from .model import Field, Variant, Program, spell_param, ISIZE_MIN
 
 KANI_TYS = ["u8", "f32", "bool", "i8", "u16"]
@@ -928,9 +928,23 @@ def fits(vals, ty):
     return all(lo <= v <= hi for v in vals)
 
 
+# discriminants written as expressions (legal with an integer repr): (source text, value)
+DISCR_EXPRS = {
+    "shl": [("1 << 2", 4), None, ("1 << 3", 8), None, ("1 << 4", 16)],
+    "or": [("6 | 1", 7), None, None, ("10", 10)],
+    "mul": [("2 * 3", 6), None, ("(1 << 3)", 8), None],
+    "and_xor": [("0xF & 6", 6), None, ("6 ^ 15", 9), None],
+    "sub": [("10 - 3", 7), None, ("20 - 8", 12)],
+    "neg_paren": [("-(3)", -3), None, ("1 + 1", 2), None],
+}
+
+
 def layout_enum(pid, payloads, dname, repr_, md, note_extra="", neighbours=False):
     n = len(payloads)
-    ds = DISCRS[dname](n)
+    if dname in DISCR_EXPRS:
+        ds = [(d[1] if d else None) for d in DISCR_EXPRS[dname][:n]]
+    else:
+        ds = DISCRS[dname](n)
     variants = []
     generics = []
     for i, pk in enumerate(payloads):
@@ -946,6 +960,12 @@ def layout_enum(pid, payloads, dname, repr_, md, note_extra="", neighbours=False
     P = ord_program(pid, "enum", "E", variants, md, generics, 0, "layout enum payloads=%s discr=%s repr=%s mode=%s%s"
                     % ("/".join(payloads), dname, repr_, md, note_extra), prop="C04", repr_=repr_)
     P.inst = {"T0": "u8"}
+    if dname in DISCR_EXPRS:
+        for v, d in zip(variants, DISCR_EXPRS[dname][:n]):
+            if d:
+                v.sem["discr_src"] = d[0]
+        if dname in ("shl", "or", "mul", "and_xor"):
+            P.tags["no_verus"] = "bit-vector discriminant expression: Verus needs by(bit_vector) hints inside the verbatim body (an edit of the verified text); decided by Kani"
     if any(PAYLOADS[p] not in (None, "T0") for p in payloads):
         P.tags["no_verus"] = "concrete payload types (layout grid): decided by Kani on the real layout"
     if neighbours:
@@ -991,6 +1011,14 @@ def c04(tier, seed):
                     continue
                 md = "both" if form % 2 == 0 else "po"
                 out.append(layout_enum(c.pid(), sh, dname, repr_, md))
+    # (A2) discriminants written as binary / parenthesised expressions (need an integer repr)
+    for dname in DISCR_EXPRS:
+        for repr_ in (["i8", "i32"] if dname == "neg_paren" else ["u8", "i16"]):
+            for sh in (("none", "none", "none", "none", "none"), ("gen", "none", "gen", "none"), ("none", "gen", "none")):
+                if len(sh) > len(DISCR_EXPRS[dname]):
+                    sh = sh[:len(DISCR_EXPRS[dname])]
+                form += 1
+                out.append(layout_enum(c.pid(), sh, dname, repr_, "both" if form % 2 == 0 else "po"))
     # (B) concrete payload grid (Kani, real layouts)
     pls = ["u8", "bool", "char", "ref", "nz", "opt", "nest", "unit", "zst", "u32"]
     grid = []
@@ -1168,6 +1196,9 @@ UNIONS = [
     ([("a", "[u8; 5]"), ("b", "u32")], 8, []),
     ([("a", "[T0; 3]"), ("b", "T1")], 4, ["T0: Copy", "T1: Copy"]),
     ([("a", "u8")], 8, [], "align(8)"),
+    # zero-sized unions: no bytes, but Hash still writes the (empty) slice with its length prefix
+    ([("a", "()"), ("b", "[u8; 0]")], 0, []),
+    ([("a", "[u16; 0]")], 0, []),
     ([("a", "u16"), ("b", "u8")], 4, [], "align(4)"),
 ]
 
@@ -1348,10 +1379,58 @@ def c14(tier, seed):
 # ---------------------------------------------------------------------------------
 # C15: every trait's contract (built from its own attributes only) under adversarial
 # attributes of all the other traits on the same fields
+def c15_structured():
+    """each field carries an attribute of exactly ONE trait (every carrier spelling in turn); every
+    other trait must treat that field as plain.  All traits are under contract at once."""
+    out = []
+    singles = [
+        ("eq", "PartialEq(ignore)", {"ignore": True}), ("eq", "Eq(ignore)", {"ignore": True}), ("eq", "Eq = false", {"ignore": True}),
+        ("eq", "Eq(method = crate::m::eq_a)", {"method": "crate::m::eq_a"}), ("eq", "PartialEq(method(crate::m::eq_b))", {"method": "crate::m::eq_b"}),
+        ("ord", "Ord(ignore)", {"ignore": True}), ("ord", "PartialOrd(ignore)", {"ignore": True}), ("ord", "PartialOrd = false", {"ignore": True}),
+        ("ord", "Ord(method = crate::m::cmp_a)", {"method": "crate::m::cmp_a"}), ("ord", "PartialOrd(method(crate::m::cmp_b))", {"method": "crate::m::cmp_b"}),
+        ("ord", "Ord(rank = -3)", {"rank": -3}), ("ord", 'PartialOrd(rank("9"))', {"rank": 9}),
+        ("hash", "Hash(ignore)", {"ignore": True}), ("hash", "Hash = false", {"ignore": True}), ("hash", "Hash(method = crate::m::hash_a)", {"method": "crate::m::hash_a"}),
+        ("clone", "Clone(method = crate::m::clone_a)", {"method": "crate::m::clone_a"}),
+        ("debug", "Debug(ignore)", {"ignore": True}), ("debug", "Debug = false", {"ignore": True}), ("debug", "Debug(name = zz)", {"key": "zz"}),
+        ("default", "Default = 9", {"src": "9", "expected": "9u8", "verus": True}),
+    ]
+    k = 0
+    traits = ["Debug", "PartialEq", "Eq", "PartialOrd", "Ord", "Hash", "Clone", "Default"]
+    for start in range(0, len(singles)):
+        for shape in ("named", "tuple"):
+            grp = singles[start:start + 1]
+            if shape == "tuple":
+                grp = [g for g in grp if not (g[0] == "debug" and "key" in g[2])]
+            fs = []
+            for i, (group, attr, sem) in enumerate(grp):
+                full = {"eq": {}, "ord": {}, "hash": {}, "clone": {}, "debug": {"ignore": False, "key": None, "method": None},
+                        "default": {"src": None, "expected": "0u8", "verus": True}, "into": {"marks": {}}}
+                full[group] = dict(full[group], **sem)
+                fs.append(Field(NAMES[i] if shape == "named" else None, "u8", attrs=[attr], **full))
+            fs.append(Field(NAMES[len(grp)] if shape == "named" else None, "u8", eq={}, ord={}, hash={}, clone={},
+                            debug={"ignore": False, "key": None, "method": None}, default={"src": None, "expected": "0u8", "verus": True}, into={"marks": {}}))
+            k += 1
+            tr = traits[k % len(traits):] + traits[:k % len(traits)]
+            if not grp:
+                continue
+            for kind in (("struct", "enum") if k % 2 else ("enum", "struct"))[:1 if k % 3 else 2]:
+                vs = [Variant(None if kind == "struct" else "V0", shape, copy.deepcopy(fs), attrs=["Default"] if kind == "enum" else [],
+                              **({"default": {"marked": True}, "debug": {"name": True, "named_field": None}} if kind == "enum" else {}))]
+                if kind == "enum":
+                    vs.append(Variant("V1", "unit", [], debug={"name": True, "named_field": None}))
+                P = Program("ps%03d%s" % (k, kind[0]), kind, "S" if kind == "struct" else "E", vs, tr,
+                            focus={"Debug", "PartialEq", "PartialOrd", "Ord", "Hash", "Clone", "Default"},
+                            note="C15 structured %s %s: one single-trait attribute per field %s" % (kind, shape, [g[1] for g in grp]),
+                            ord={"mode": "both"}, clone={"copy": False}, default={"new": False}, debug={"name": "default", "named_field": None})
+                P.tags["prop"] = "C15"
+                out.append(P)
+    return out
+
+
 def c15(tier, seed):
     rnd = random.Random(1000 + seed)
     c = Counter()
-    out = []
+    out = c15_structured()
     ALL = ["Debug", "PartialEq", "Eq", "PartialOrd", "Ord", "Hash", "Clone", "Default", "Into(u16)"]
     nprog = 24 if tier == "quick" else 360
     for pi in range(nprog):
